@@ -251,7 +251,9 @@ func (m *blueGreenReleaseManager) doCanaryJump(c *RolloutContext) (jumped bool) 
 	// since we forbid adding or removing steps, currentStepIndex should always be valid
 	currentStep := c.Rollout.Spec.Strategy.BlueGreen.Steps[bluegreenStatus.CurrentStepIndex-1]
 	// nextIndex=-1 means the release is done, nextIndex=0 is not used
-	if nextIndex := bluegreenStatus.NextStepIndex; nextIndex != util.NextBatchIndex(c.Rollout, bluegreenStatus.CurrentStepIndex) && nextIndex > 0 {
+	// nextIndex is user-editable: ignore a value beyond the steps instead of indexing with it
+	if nextIndex := bluegreenStatus.NextStepIndex; nextIndex != util.NextBatchIndex(c.Rollout, bluegreenStatus.CurrentStepIndex) && nextIndex > 0 &&
+		int(nextIndex) <= len(c.Rollout.Spec.Strategy.BlueGreen.Steps) {
 		currentIndexBackup := bluegreenStatus.CurrentStepIndex
 		currentStepStateBackup := bluegreenStatus.CurrentStepState
 		// update the current and next stepIndex
